@@ -205,7 +205,7 @@ theorem pyDict_clean (b : Ban) (k : DKind) (ps : List (Out × Out)) (out : Out) 
 /-- what the options allow to ban: scalars only if a serializer wraps them, serializer results only if
     there is no serializer -/
 def Ban.fits (b : Ban) (o : Opts) : Prop :=
-  (b.atom = true → o.ser ≠ .off) ∧ (b.ser = true → o.ser = .off)
+  (b.atom = true → o.ser ≠ .off ∧ o.ser ≠ .subst) ∧ (b.ser = true → o.ser = .off)
 
 mutual
 theorem anything_clean (b : Ban) (o : Opts) (hb : b.fits o) : ∀ (v : PVal) (isKey : Bool) (out : Out),
